@@ -9,7 +9,7 @@ from .common import *
 from .sync_common import entry_point
 from .C03 import root_ptr
 
-UNITS = ["queue", "semaphore"]
+UNITS = ["queue", "semaphore", "shims/lock"]
 AF = frozenset(["dbpd_atomic_flags"])
 
 
@@ -200,7 +200,7 @@ def run(rep, tier="quick", srcdir=None, only=None):
         rule_MP2(rep, prog, k)
     if want("C19-TR3"):
         rule_TR3(rep, prog, k, q)
-    if want("C07-MP3") or want("C07-MP4"):
+    if want("C07-MP3") or want("C07-MP4") or want("C07-MP2"):
         # wait / notify of a block object are wait / notify on its private group, which has completed generations behind it after the first
         # execution: the group-side obligations that matter for that state are shared with C07
         from . import C07
@@ -210,6 +210,9 @@ def run(rep, tier="quick", srcdir=None, only=None):
             C07.rule_MP3(rep, prog, g)
         if want("C07-MP4"):
             C07.rule_MP4(rep, prog, g)
+        if want("C07-MP2"):
+            # completion wakes the dispatch_block_wait callers AND submits the dispatch_block_notify blocks, also when both are pending at once
+            C07.rule_MP2(rep, prog, g)
     if want("C07-MP6") or want("C07-CP7"):
         from . import C07
         C07.rule_MP6(rep, prog, None)
